@@ -26,6 +26,10 @@ pub enum Op {
     Call,
     Kill,
     TwoCalls,
+    /// two calls issued at the same instant on two clones of the client
+    Pair,
+    /// a slow call whose connection the peer drops while it is in flight
+    CallKilled,
 }
 
 struct ConnState {
@@ -79,7 +83,7 @@ pub fn run(cfg: &RunCfg) -> Ctx {
     all.merge(par_cases(cfg, "sampled", cfg.n(1200, 16 * 20_000), || (), |_, rng, ctx, _| {
         let lazy = rng.bool();
         let o: Vec<bool> = (0..rng.urange(0, 8)).map(|_| rng.chance(3, 5)).collect();
-        let p: Vec<Op> = (0..rng.urange(1, 10)).map(|_| match rng.below(6) { 0 | 1 => Op::Kill, 2 => Op::TwoCalls, _ => Op::Call }).collect();
+        let p: Vec<Op> = (0..rng.urange(1, 10)).map(|_| match rng.below(9) { 0 | 1 => Op::Kill, 2 => Op::TwoCalls, 3 => Op::Pair, 4 => Op::CallKilled, _ => Op::Call }).collect();
         // endpoint options that select other code paths of the channel construction
         let opts = rng.below(16) as u32;
         scenario(rng, ctx, lazy, o, p, opts);
@@ -91,6 +95,8 @@ pub fn run(cfg: &RunCfg) -> Ctx {
     all.floor("model.recovered_after_failure", 5);
     all.floor("model.eager_initial_failure", 3);
     all.floor("model.kills", 10);
+    all.floor("model.calls_killed_in_flight", 5);
+    all.floor("model.concurrent_pairs", 10);
     all
 }
 
@@ -105,6 +111,7 @@ fn scenario(rng: &mut Rng, ctx: &mut Ctx, lazy: bool, outcomes: Vec<bool>, ops: 
     let pcfg = if rng.bool() { PipeCfg::plain() } else { PipeCfg::gen(rng) };
     let rt = paused_rt();
     let mut states: Vec<String> = Vec::new();
+    let ctx_codes: Mutex<Vec<String>> = Mutex::new(Vec::new());
     let res: Result<(), (String, String)> = rt.block_on(async {
         let (conn_tx, conn_rx) = mpsc::unbounded_channel();
         let handler = Handler::new();
@@ -176,6 +183,7 @@ fn scenario(rng: &mut Rng, ctx: &mut Ctx, lazy: bool, outcomes: Vec<bool>, ops: 
             }
         };
         let mut client = VerifClient::new(channel);
+        handler.set_script("slow", crate::svc::Script { latency_ms: 50, ..Default::default() });
         let mut had_failure = false;
         let mut call_no = 0;
         for op in &ops {
@@ -189,6 +197,108 @@ fn scenario(rng: &mut Rng, ctx: &mut Ctx, lazy: bool, outcomes: Vec<bool>, ops: 
                         }
                     }
                     connected = false;
+                    quiesce().await;
+                }
+                Op::Pair => {
+                    let before = st.lock().unwrap().invocations;
+                    let entered_before = handler.total_entered.load(std::sync::atomic::Ordering::SeqCst);
+                    let mut c2 = client.clone();
+                    call_no += 2;
+                    let (m1, m2) = (Msg { data: vec![1], seq: call_no - 1, tag: String::new() }, Msg { data: vec![2], seq: call_no, tag: String::new() });
+                    let both = async { tokio::join!(client.unary(tonic::Request::new(m1)), c2.unary(tonic::Request::new(m2))) };
+                    let (r1, r2) = match tokio::time::timeout(Duration::from_secs(60), both).await {
+                        Err(_) => return Err(("hang".into(), format!("concurrent calls {}/{} did not both resolve within 60 virtual seconds", call_no - 1, call_no))),
+                        Ok(x) => x,
+                    };
+                    let consumed: Vec<bool> = {
+                        let s = st.lock().unwrap();
+                        s.consumed[before as usize..].to_vec()
+                    };
+                    let failed_attempts = consumed.iter().filter(|o| !**o).count();
+                    let mut oks = 0u64;
+                    let mut errs = 0usize;
+                    for r in [&r1, &r2] {
+                        match r {
+                            Ok(_) => oks += 1,
+                            Err(s) => {
+                                errs += 1;
+                                if s.code() != tonic::Code::Unavailable {
+                                    return Err(("wrong-code".into(), format!("one of two concurrent calls failed with {:?} ({}); want UNAVAILABLE", s.code(), s.message())));
+                                }
+                            }
+                        }
+                    }
+                    if !connected && consumed.is_empty() {
+                        return Err(("no-attempt-while-disconnected".into(), format!("two concurrent calls got {} Ok / {} Err without any connection attempt while no connection exists", oks, errs)));
+                    }
+                    if errs > failed_attempts {
+                        return Err(("failure-replayed".into(), format!("two concurrent calls: {} failed but only {} connection attempt(s) failed meanwhile (attempt outcomes {:?}, connection existed before: {})", errs, failed_attempts, consumed, connected)));
+                    }
+                    if oks > 0 && !connected && !consumed.iter().any(|o| *o) {
+                        return Err(("ok-without-connection".into(), "a concurrent call succeeded although every attempt failed".into()));
+                    }
+                    let entered = handler.total_entered.load(std::sync::atomic::Ordering::SeqCst);
+                    if entered != entered_before + oks {
+                        return Err(("ok-without-handler".into(), format!("{} concurrent calls returned Ok but the handler ran {} times", oks, entered - entered_before)));
+                    }
+                    if errs > 0 {
+                        had_failure = true;
+                    }
+                    connected = match consumed.last() {
+                        Some(o) => *o,
+                        None => connected,
+                    };
+                    states.push(format!("pair-{}ok-{}err", oks, errs));
+                    quiesce().await;
+                }
+                Op::CallKilled => {
+                    call_no += 1;
+                    let before = st.lock().unwrap().invocations;
+                    let mut req = tonic::Request::new(Msg { data: vec![4, 5], seq: call_no, tag: String::new() });
+                    req.metadata_mut().insert("x-script", "slow".parse().unwrap());
+                    let st3 = st.clone();
+                    let killer = async {
+                        tokio::time::sleep(Duration::from_millis(20)).await;
+                        let live = st3.lock().unwrap().live.take();
+                        match live {
+                            Some(h) => {
+                                h.kill();
+                                true
+                            }
+                            None => false,
+                        }
+                    };
+                    let both = async { tokio::join!(client.unary(req), killer) };
+                    let (r, killed) = match tokio::time::timeout(Duration::from_secs(60), both).await {
+                        Err(_) => return Err(("hang".into(), format!("call {} whose connection was dropped in flight did not resolve within 60 virtual seconds", call_no))),
+                        Ok(x) => x,
+                    };
+                    let consumed: Vec<bool> = {
+                        let s = st.lock().unwrap();
+                        s.consumed[before as usize..].to_vec()
+                    };
+                    if !connected && consumed.is_empty() {
+                        return Err(("no-attempt-while-disconnected".into(), format!("call {} got {:?} without any connection attempt while no connection exists", call_no, r.as_ref().map(|_| "Ok").map_err(|s| s.code()))));
+                    }
+                    let had_conn = connected || consumed.iter().any(|o| *o);
+                    match (&r, had_conn, killed) {
+                        (Ok(_), _, true) => return Err(("ok-on-dead-connection".into(), format!("call {} returned Ok although its connection was dropped 30 ms before the handler answered", call_no))),
+                        (Ok(_), false, _) => return Err(("ok-without-connection".into(), format!("call {} succeeded although every attempt failed", call_no))),
+                        (Ok(_), true, false) => states.push("ok-live".into()),
+                        (Err(s), false, _) => {
+                            if s.code() != tonic::Code::Unavailable {
+                                return Err(("wrong-code".into(), format!("call {} failed with {:?} ({}) while no connection can be made; want UNAVAILABLE", call_no, s.code(), s.message())));
+                            }
+                            had_failure = true;
+                            states.push("unavailable".into());
+                        }
+                        (Err(s), true, true) => {
+                            ctx_codes.lock().unwrap().push(format!("{:?}", s.code()));
+                            states.push("killed-in-flight".into());
+                        }
+                        (Err(s), true, false) => return Err(("live-connection-call-failed".into(), format!("call {} on an established connection failed: {:?} {}", call_no, s.code(), s.message()))),
+                    }
+                    connected = !killed && consumed.last().copied().unwrap_or(connected);
                     quiesce().await;
                 }
                 Op::Call | Op::TwoCalls => {
@@ -270,10 +380,15 @@ fn scenario(rng: &mut Rng, ctx: &mut Ctx, lazy: bool, outcomes: Vec<bool>, ops: 
             "unavailable" => ctx.count("model.call_failed_unavailable"),
             "eager-initial-failure" => ctx.count("model.eager_initial_failure"),
             "kill" => ctx.count("model.kills"),
+            "killed-in-flight" => ctx.count("model.calls_killed_in_flight"),
+            x if x.starts_with("pair-") => ctx.count("model.concurrent_pairs"),
             _ => {}
         }
     }
     ctx.add("observed.calls", states.iter().filter(|s| s.starts_with("ok") || *s == "unavailable").count() as u64);
+    for c in ctx_codes.lock().unwrap().iter() {
+        ctx.distinct("codes_of_calls_killed_in_flight", c);
+    }
     let fp = format!("{}|{}", if lazy { "lazy" } else { "eager" }, states.join(">"));
     ctx.distinct("model_state_sequences", &fp);
     let nontrivial = states.iter().any(|s| s == "kill" || s == "unavailable" || s == "eager-initial-failure");
